@@ -11,6 +11,7 @@
 #include <sbepp/sbeppc/build_info.hpp>
 
 #include <fmt/core.h>
+#include <fmt/format.h>
 
 #include <algorithm>
 #include <cctype>
@@ -231,6 +232,21 @@ inline std::string to_integer_literal(
     const std::string_view value, const std::string_view type)
 {
     assert(!value.empty() && (type != "float") && (type != "double"));
+
+    // "007" is a valid SBE/XML integer but an octal literal in C++
+    {
+        const auto has_sign = (value[0] == '-');
+        const auto digits = value.substr(has_sign ? 1 : 0);
+        const auto first_non_zero = digits.find_first_not_of('0');
+        if((digits.size() > 1) && (first_non_zero != 0))
+        {
+            const auto stripped = (first_non_zero == std::string_view::npos)
+                                      ? std::string_view{"0"}
+                                      : digits.substr(first_non_zero);
+            return to_integer_literal(
+                fmt::format("{}{}", has_sign ? "-" : "", stripped), type);
+        }
+    }
 
     if((type == "int64") && (value[0] == '-'))
     {
